@@ -101,7 +101,8 @@ func (a *App) auth(c context.Context, op string, o Outcome, w http.ResponseWrite
 		return c, false, nil
 	}
 	a.obs(c, "auth-error")
-	return c, false, fmt.Errorf("authentication backend failed")
+	// the delegate contract: when an error is returned the boolean must be ignored
+	return c, o == ErrorTrue, fmt.Errorf("authentication backend failed")
 }
 
 func (m Common) AuthenticateGetInbox(c context.Context, w http.ResponseWriter, r *http.Request) (context.Context, bool, error) {
